@@ -968,7 +968,21 @@ fn codegen_router(ops: &Operations, rust_types: &RustTypes) {
                                 (true, false) => {
                                     let tag = route.query_tag.as_deref().unwrap();
 
-                                    g!("if qs.has(\"{tag}\") {{");
+                                    // A sibling that shares the tag but not the required query strings
+                                    // (e.g. `ListBucketAnalyticsConfigurations` vs `GetBucketAnalyticsConfiguration`)
+                                    // must stay reachable.
+                                    let has_sibling = group
+                                        .iter()
+                                        .any(|r| r.op.name != route.op.name && r.query_tag.as_deref() == Some(tag));
+
+                                    let mut cond = format!("qs.has(\"{tag}\")");
+                                    if has_sibling {
+                                        for q in &route.required_query_strings {
+                                            write!(cond, " && qs.has(\"{q}\")").unwrap();
+                                        }
+                                    }
+
+                                    g!("if {cond} {{");
                                     succ(route, true);
                                     g!("}}");
                                 }
